@@ -780,3 +780,30 @@ def check_count_resume(rep, mod, off_with_count, floor):
             ok = not final or canon(final) == canon(add(lf('E_count'), st.F['#copied']))
             R.check(ok, mod.where(f, ri), '%s: state->count is %s at this return although %s bytes were copied on this path: it is neither 0 (header complete) nor its entry value plus the bytes copied' % (fn, fmt(final), fmt(st.F['#copied'])), key='R-COUNT-RESUME|%s|final|%s' % (fn, fmt(final)[:40]),
                     sample='%s: count in {0, old, old + n}' % fn)
+
+
+def check_stored_len(rep, mod, offi_with_len, floor=1):
+    """stored blocks: the bytes still owed by the current stored block are counted down by exactly what is delivered"""
+    R = rep.rule('R-STORED-LEN-BALANCE', 'decode_literal_block: on every path to every return (path-sensitive linear forms, the engine of R-ACCT-BALANCE) total_out + type0_block_len equals its entry value - every byte of a '
+                 'stored block that is delivered, from the bit buffer or from the input, is taken off the length the block still owes, so the block ends (and "output full with data pending" is reported) exactly where LEN says',
+                 floor=floor, unit='function returns')
+    MODSETS.update(modsets(mod, offi_with_len, offi_with_len))
+    f = mod.funcs.get('decode_literal_block')
+    if f is None:
+        raise AnalysisBroken('decode_literal_block not found (inlined away?)')
+    pidx, kind = stream_param(f)
+    a = Fn(mod, f, pidx, kind, offi_with_len)
+    a.run()
+    if not a.rets:
+        raise AnalysisBroken('acct: decode_literal_block has no reachable return')
+    seen = set()
+    for ri, st in a.rets:
+        d = add(add(st.F['total_out'], st.F['type0_block_len']), add(lf('E_total_out'), lf('E_type0_block_len')), -1)
+        k = canon(d)
+        if k in seen:
+            continue
+        seen.add(k)
+        R.instance()
+        R.check(not d, mod.where(f, ri), 'decode_literal_block: at this return total_out + type0_block_len differs from its entry value by %s: bytes were delivered without being taken off the stored block\'s remaining '
+                'length (the block then over-runs into the next block header, or a complete block is reported as pending)' % fmt(d), key='R-STORED-LEN-BALANCE|%s' % fmt(d),
+                sample='decode_literal_block: balanced at every return')
